@@ -329,6 +329,12 @@ func makingslash(vs *ValidatorStore, evidences []types.Evidence) []Validator {
 }
 
 func (vs *ValidatorStore) HandleUnstake(unstake Unstake, height int64) error {
+	return vs.handleUnstake(unstake, height, false)
+}
+
+// penalty: the postponed stake reduction of a guilty validator, it is not an unstake transaction
+// and must not be lost when the validator was purged less than 2 blocks ago
+func (vs *ValidatorStore) handleUnstake(unstake Unstake, height int64, penalty bool) error {
 	validator := &Validator{}
 
 	validator, err := vs.Get(unstake.Address)
@@ -344,7 +350,7 @@ func (vs *ValidatorStore) HandleUnstake(unstake Unstake, height int64) error {
 	if err != nil {
 		return errors.New("failed to get last purge height")
 	}
-	if purgeHeight > 0 && purgeHeight+2 > height {
+	if !penalty && purgeHeight > 0 && purgeHeight+2 > height {
 		return errors.New("not allowed to unstake within 2 blocks after unstake")
 	}
 	err = vs.set(*validator)
